@@ -141,6 +141,44 @@ BENIGN = [
         ["C13", "C15"],
     ),
     (
+        "utf8-cache-files",
+        [
+            ("ceos_alos2/sar_image/caching/__init__.py", "    return json.dumps(preprocess(encoded))", "    return json.dumps(preprocess(encoded), ensure_ascii=False)"),
+            ("ceos_alos2/sar_image/caching/__init__.py", "            return decode_cache(local.read_text)", "            return decode_cache(lambda: local.read_text(encoding=\"utf-8\"))"),
+            ("ceos_alos2/sar_image/caching/__init__.py", "    local.write_text(encoded)", "    local.write_text(encoded, encoding=\"utf-8\")"),
+            ("ceos_alos2/sar_image/cli.py", "    target.write_text(encoded)", "    target.write_text(encoded, encoding=\"utf-8\")"),
+        ],
+        ["C07", "C08", "C09", "C10"],
+    ),
+    (
+        "atomic-cache-write",
+        [
+            (
+                "ceos_alos2/sar_image/caching/__init__.py",
+                "    local.write_text(encoded)",
+                "    import os\n\n    temporary = local.with_name(local.name + \".part\")\n    temporary.write_text(encoded)\n    os.replace(temporary, local)",
+            )
+        ],
+        ["C07", "C09", "C10", "C03"],
+    ),
+    (
+        "iso-always-with-microseconds",
+        [("ceos_alos2/transformers.py", '    return dt.datetime.strptime(string, "%Y%m%d%H%M%S%f").isoformat()', '    return dt.datetime.strptime(string, "%Y%m%d%H%M%S%f").isoformat(timespec="microseconds")')],
+        ["C04", "C16", "C17", "C13"],
+    ),
+    (
+        "getitem-returns-copy",
+        [("ceos_alos2/array.py", "        return data[new_indexers]", "        return np.array(data[new_indexers], copy=True)")],
+        ["C01", "C02", "C12", "C19"],
+    ),
+    (
+        "filename-decoder-memo-with-copies",
+        [
+            ("ceos_alos2/sar_image/__init__.py", "def filename_to_groupname(path):\n    info = decode_filename(path)", "_names = {}\n\n\ndef filename_to_groupname(path):\n    if path not in _names:\n        _names[path] = dict(decode_filename(path))\n    info = dict(_names[path])"),
+        ],
+        ["C10", "C13", "C15", "C19"],
+    ),
+    (
         "mapper-getitem-missing-summary",
         [("ceos_alos2/summary.py", "        raise OSError(\n", "        raise FileNotFoundError(\n")],
         ["C18"],
